@@ -87,8 +87,11 @@ def load_registry():
                         ann = {}
                     continue
                 mi = re.match(r"^(\w+)!\((\w+)\s*,", s)
-                if mi and not ann and mi.group(1) in macro_ann:
-                    ann = dict(macro_ann[mi.group(1)])
+                if mi and mi.group(1) in macro_ann:
+                    # annotations written directly in front of an instance override the template's
+                    base = dict(macro_ann[mi.group(1)])
+                    base.update(ann)
+                    ann = base
                 if s.startswith("//@"):
                     body = s[3:].strip()
                     # several "key: value" pairs may share a line when separated by two spaces
